@@ -68,6 +68,12 @@ Qed.
 Theorem c02_gentime_range : forall chk d1 d2 s, gen_time_lint chk d1 d2 = Val s -> s = 1 \/ s = 3 \/ s = 6.
 Proof. exact gen_time_lint_range. Qed.
 
+(* the rune loop of e_subject_dn_not_printable_characters never slices out of range, and its verdict is "some
+   attribute value holds a control character" - a property of the set of values *)
+Theorem c02_dn_printable : forall vals,
+  safe (dn_not_printable vals) /\ dn_not_printable vals = Val (if existsb val_ctl vals then 6 else 3).
+Proof. intro vals. split; [exact (dn_not_printable_safe vals) | exact (dn_not_printable_exists vals)]. Qed.
+
 Print Assumptions c02_fatal_origin.
 Print Assumptions c02_framework.
 Print Assumptions c02_plain.
@@ -77,6 +83,7 @@ Print Assumptions c02_gentime_safe.
 Print Assumptions c02_gentime_guard_needed.
 Print Assumptions c02_bodies_total.
 Print Assumptions c02_gentime_range.
+Print Assumptions c02_dn_printable.
 
 (* non-vacuity: a 15-octet Zulu GeneralizedTime meets the guard; the lints pass on it and report the 13-octet form *)
 Example c02_gentime_example :
